@@ -10,7 +10,7 @@
 (* used as negative twins).                                                               *)
 (* out : row -> (col -> Int): 0 = not yet labelled, NANV = NaN, > 0 = label.              *)
 (* Values are integers, so numpy's isclose(rtol 1e-5, atol 1e-8) is equality.             *)
-EXTENDS Components, Sequences
+EXTENDS Components, Sequences, TLC
 
 RMax(a, b) == IF a > b THEN a ELSE b
 RMin(a, b) == IF a < b THEN a ELSE b
@@ -48,12 +48,13 @@ Label1Cell(g, st, y, x) ==
           THEN [st EXCEPT !.out[y][x] = assigned_value]
           ELSE [out |-> [st.out EXCEPT ![y][x] = st.uid], uid |-> st.uid + 1]
 
-\* the two "replace" loops: every cell labelled `from` becomes `to`
+\* the two "replace" loops: every cell labelled `from` becomes `to`.
+\* (TLCEval makes TLC build the new array at once instead of keeping a lazy function whose every access
+\* re-evaluates the previous one - nested replaces would otherwise cost exponential time in the judge)
 Replace(g, out, from, to, win) ==
-  IF g.mut = "localreplace"
-  THEN [r \in 0..g.H-1 |-> [c \in 0..g.W-1 |->
-          IF out[r][c] = from /\ (\E j \in 1..Len(win) : win[j] = <<r, c>>) THEN to ELSE out[r][c]]]
-  ELSE [r \in 0..g.H-1 |-> [c \in 0..g.W-1 |-> IF out[r][c] = from THEN to ELSE out[r][c]]]
+  TLCEval([r \in 0..g.H-1 |-> [c \in 0..g.W-1 |->
+     LET o == out[r][c] IN
+     IF o = from /\ (g.mut # "localreplace" \/ \E j \in 1..Len(win) : win[j] = <<r, c>>) THEN to ELSE o]])
 
 \* the walk over neighbor_matches of the second pass; amin = assigned_values_min (0 = None);
 \* aw is the snapshot taken before the walk (it is NOT refreshed after a replace, as in the code)
